@@ -480,6 +480,8 @@ class Exec:
             # None -> False, int -> != 0, str/tuple -> non-empty, other objects -> truthy
             return z3.And(v.tag != T_NONE, z3.Or(v.tag != T_INT, v.ival != 0),
                           z3.Or(z3.And(v.tag != T_STR, v.tag != T_TUPLE), v.nonempty))
+        if isinstance(v, SymObj) and v.model is not None and hasattr(v.model, "truth"):
+            return v.model.truth(self, v)
         if isinstance(v, (SymObj, Rng)):
             return z3.BoolVal(True)
         if isinstance(v, tuple):
